@@ -7,5 +7,6 @@ let () =
   | _ :: "run" :: _ -> Runmain.run ()
   | _ :: "den" :: _ -> Runmain.run ~spec:true ()
   | _ :: "scope" :: _ -> Runmain.run ~scope:true ()
+  | _ :: "lex" :: _ -> Lexmain.run ()
   | _ :: "simp" :: _ -> Runmain.run ~simp:true ()
   | _ -> prerr_endline "usage: zwmodel int [--spec] | cov"; exit 2
